@@ -820,6 +820,9 @@ def iterate(eng, st, v):
             yield from iterate(eng, st, c.keys)
     elif isinstance(c, (ZipSeq, EnumSeq)):
         yield st, c
+    elif isinstance(c, SRef) and getattr(c.t, "iter_items", None) is not None:
+        # an opaque reference standing for an (immutable) python list / tuple: its items are an uninterpreted sequence
+        yield st, uf_value(eng, st, f"{c.t.name}.items", [c.z], [c.t.z3sort()], Seq(c.t.iter_items))
     elif isinstance(c, IterView):
         yield from c.items(eng, st)
     elif inspect.isclass(c) and issubclass(c, enum.Enum):
@@ -1263,6 +1266,9 @@ def container_call(eng, st, target, name, args, kwargs, node=None):
             return
         if name == "__len__":
             yield st, len(c)
+            return
+        if isinstance(c, str) and name in ("join", "format"):
+            yield st, Str.fresh(name)       # text assembled from symbolic pieces: an arbitrary string
             return
         raise Unsupported(f"method {name} of concrete {type(c).__name__} with symbolic args")
     raise Unsupported(f"method {name} on {c!r}")
@@ -2023,6 +2029,67 @@ def _type(eng, st, args, kw, node):
     if isinstance(v, SV):
         raise Unsupported("type() of symbolic value")
     yield st, type(v)
+
+
+@builtin(itertools.chain)
+def _chain(eng, st, args, kw, node):
+    """chain(*parts): the flattened sequence.  Concrete parts of concrete structure are concatenated; with a symbolic number of
+    parts (a starred symbolic sequence of list-references) the result is a fresh sequence constrained by the library contract of
+    chain: every element of every part occurs in it, and every element of it comes from some part."""
+    from .engine import StarSeq
+    parts = list(args)
+    if not any(isinstance(p, StarSeq) for p in parts):
+        flat = []
+        symbolic = []
+        for p in parts:
+            for s, items in iterate(eng, st, p):
+                if isinstance(items, list):
+                    flat.extend(items)
+                else:
+                    symbolic.append(items)
+                break
+        if not symbolic:
+            yield st, tuple(flat)
+            return
+    elem_t = None
+    outer, inner = [], []
+    for p in parts:
+        if isinstance(p, StarSeq):
+            seq = p.seq
+            first = seq.at(z3.Int(fresh_name("probe"))) if not isinstance(seq, ItemsSeq) else seq.at(z3.Int(fresh_name("probe")))
+            if not (isinstance(first, SRef) and getattr(first.t, "iter_items", None) is not None):
+                raise Unsupported("chain(*seq): the parts must be list references (Ref.iter_items)")
+            elem_t = first.t.iter_items
+            outer.append(seq)
+        else:
+            for s, items in iterate(eng, st, p):
+                inner.append(items if not isinstance(items, list) else SSeq.of(type_of(items[0]) if items else elem_t, items))
+                break
+    if elem_t is None:
+        elem_t = inner[0].te
+    flat = Seq(elem_t).fresh("chain")
+    st.assume(flat.n >= 0)
+    pos_id = fresh_name("chain.pos")
+    i = z3.Int(fresh_name("i"))
+    src_conds = []
+    for k, seq in enumerate(outer):
+        a, b = z3.Int(fresh_name("a")), z3.Int(fresh_name("b"))
+        part = seq.at(a)
+        items = uf_value(eng, st, f"{part.t.name}.items", [part.z], [part.t.z3sort()], Seq(elem_t))
+        pos = z3.Function(f"{pos_id}.{k}", z3.IntSort(), z3.IntSort(), z3.IntSort())
+        st.assume(z3.ForAll([a, b], z3.Implies(z3.And(0 <= a, a < seq.n, 0 <= b, b < items.n),
+                                               z3.And(0 <= pos(a, b), pos(a, b) < flat.n, z3.Select(flat.arr, pos(a, b)) == z3.Select(items.arr, b))),
+                            patterns=[z3.Select(items.arr, b)]))
+        src_conds.append(z3.Exists([a, b], z3.And(0 <= a, a < seq.n, 0 <= b, b < items.n, z3.Select(flat.arr, i) == z3.Select(items.arr, b))))
+    for k, seq in enumerate(inner):
+        b = z3.Int(fresh_name("b"))
+        pos = z3.Function(f"{pos_id}.in{k}", z3.IntSort(), z3.IntSort())
+        st.assume(z3.ForAll([b], z3.Implies(z3.And(0 <= b, b < seq.n),
+                                            z3.And(0 <= pos(b), pos(b) < flat.n, z3.Select(flat.arr, pos(b)) == z3.Select(seq.arr, b))),
+                            patterns=[z3.Select(seq.arr, b)]))
+        src_conds.append(z3.Exists([b], z3.And(0 <= b, b < seq.n, z3.Select(flat.arr, i) == z3.Select(seq.arr, b))))
+    st.assume(z3.ForAll([i], z3.Implies(z3.And(0 <= i, i < flat.n), z3.Or(src_conds))))
+    yield st, flat
 
 
 @builtin(itertools.product)
